@@ -14,7 +14,7 @@
    algorithm equal to CRC-32/MPEG-2, whence "the CRC of the whole section is zero". *)
 From Gots Require Import Base.Prelude Model.Pts Model.Scte Model.ScteEnc Spec.Scte35Spec
   Proofs.ScteExpected Proofs.ScteLogical Proofs.ScteDecode Proofs.ScteEncode Proofs.ScteRoundtrip Proofs.ScteSetters
-  Proofs.ScteCanonical Proofs.ScteClean Proofs.ScteWitness Proofs.ScteReflected Proofs.ScteNormalB Proofs.ScteEncBytes Proofs.ScteBuild Proofs.ScteReorder Proofs.ScteClosure.
+  Proofs.ScteCanonical Proofs.ScteClean Proofs.ScteWitness Proofs.ScteReflected Proofs.ScteNormalB Proofs.ScteEncBytes Proofs.ScteBuild Proofs.ScteReorder Proofs.ScteClosure Proofs.ScteDecodedWid.
 Import Scte ScteEnc Scte35Spec.
 Local Open Scope N_scope.
 
@@ -307,6 +307,22 @@ Theorem C09_history_canonical : forall ops, Forall typed_sig_op ops -> fits (run
   fst (update_data (run_script create_scte35 ops)) = ser_section (logical [] (run_script create_scte35 ops)).
 Proof. exact history_canonical. Qed.
 Print Assumptions C09_history_canonical.
+
+(* ... and "obtained by decoding, then setters": every signal the decoder returns on a byte string has the width invariant
+   (each field is read from that many bits; foreign_of s = its otherDescriptorBytes read back as foreign descriptors), so
+   the same two statements hold for histories that start from ANY decoded signal *)
+Theorem C09_decoded_wid : forall data s, is_bytes data -> new_scte35 data = Ok s -> wid_sig (foreign_of s) s.
+Proof. exact decoded_wid. Qed.
+Print Assumptions C09_decoded_wid.
+Theorem C09_history_normal_decoded : forall data s0 ops, is_bytes data -> new_scte35 data = Ok s0 ->
+  Forall typed_sig_op ops -> fits (run_script s0 ops) -> normal (foreign_of s0) (run_script s0 ops).
+Proof. exact history_normal_decoded. Qed.
+Print Assumptions C09_history_normal_decoded.
+Theorem C09_history_canonical_decoded : forall data s0 ops, is_bytes data -> new_scte35 data = Ok s0 ->
+  Forall typed_sig_op ops -> fits (run_script s0 ops) ->
+  fst (update_data (run_script s0 ops)) = ser_section (logical (foreign_of s0) (run_script s0 ops)).
+Proof. exact history_canonical_decoded. Qed.
+Print Assumptions C09_history_canonical_decoded.
 
 (* every history from CreateSCTE35 keeps: command type consistent, tier 12 bits, command / component pts 33 bits,
    UPID / MID exclusivity, MID element length = length of its bytes (also after MID()[j].SetUPID), 40-bit durations,
